@@ -334,6 +334,40 @@ func GenLeaf(r *hx.Rng, kind string) []byte {
 			body = Cat(body, []byte{0xfc | byte(r.Intn(4)), 0xf8 | byte(r.Intn(8)), 0xf8 | byte(r.Intn(8)), 0})
 		}
 		return Box(kind, body)
+	case "hvcC":
+		// HEVCDecoderConfigurationRecord with the reserved bits set as the standard asks (the mutants vary them)
+		rsv := func(ones, mask byte) byte { return ones }
+		body := Cat([]byte{1, byte(r.U64())}, U32(r32(r)), U16(uint16(r.U64())), U32(r32(r)), []byte{byte(r.U64())},
+			U16(uint16(rsv(0xf0, 0x0f))<<8|uint16(r.Intn(4096))), []byte{rsv(0xfc, 3) | byte(r.Intn(4)), rsv(0xfc, 3) | byte(r.Intn(4)),
+				rsv(0xf8, 7) | byte(r.Intn(8)), rsv(0xf8, 7) | byte(r.Intn(8))}, U16(uint16(r.U64())), []byte{byte(r.Intn(64))<<2 | 3})
+		na := r.Intn(4)
+		body = append(body, byte(na))
+		for a := 0; a < na; a++ {
+			nn := r.Intn(3)
+			body = Cat(body, []byte{byte(r.Pick(0x20, 0x21, 0x22, 0xa0, 0xa1, 0xa2, 0x27))}, U16(uint16(nn)))
+			for i := 0; i < nn; i++ {
+				k := r.Intn(14)
+				body = Cat(body, U16(uint16(k)), r.Bytes(k, nil))
+			}
+		}
+		return Box(kind, body)
+	case "subs":
+		ver := byte(r.Pick(0, 1, 1, 2))
+		n := r.Intn(4)
+		body := Cat(vf(ver, uint32(r.Pick(0, 0, 2))), U32(uint32(n)))
+		for i := 0; i < n; i++ {
+			k := r.Intn(4)
+			body = Cat(body, U32(r32(r)), U16(uint16(k)))
+			for j := 0; j < k; j++ {
+				if ver == 1 {
+					body = append(body, U32(r32(r))...)
+				} else {
+					body = append(body, U16(uint16(r.U64()))...)
+				}
+				body = Cat(body, []byte{byte(r.U64()), byte(r.U64())}, U32(r32(r)))
+			}
+		}
+		return Box(kind, body)
 	case "btrt":
 		return Box(kind, Cat(U32(r32(r)), U32(r32(r)), U32(r32(r))))
 	case "pasp":
@@ -385,6 +419,8 @@ func GenLeaf(r *hx.Rng, kind string) []byte {
 			make([]byte, 4), U16(1), []byte{byte(len(name))}, name, make([]byte, 31-len(name)), U16(0x18), U16(0xffff))
 		if kind == "avc1" || kind == "avc3" || kind == "encv" {
 			body = append(body, GenLeaf(r, "avcC")...)
+		} else {
+			body = append(body, GenLeaf(r, "hvcC")...)
 		}
 		for _, k := range []string{"btrt", "pasp", "colr", "clap", "zzzz"} {
 			if r.Intn(3) == 0 {
@@ -482,7 +518,7 @@ var GenKinds = []string{"ftyp", "styp", "free", "skip", "mdat", "mfhd", "tfhd", 
 	"stsc", "stsz", "stco", "stss", "co64", "sdtp", "ctts", "elst", "saiz", "saio", "sbgp", "prft", "tenc", "frma", "vmhd",
 	"smhd", "nmhd", "sthd", "mfro", "mehd", "tfra", "pssh",
 	"url ", "avcC", "btrt", "pasp", "colr", "clap", "schm", "cslg", "stsd", "dref", "avc1", "avc3", "hvc1", "hev1", "encv", "mp4a", "enca",
-	"senc", "emsg", "elng", "kind"}
+	"senc", "emsg", "elng", "kind", "hvcC", "subs"}
 
 // Exhaustive returns well-formed boxes covering EVERY combination of the optional-field flag bits of the
 // boxes that have them (trun: 6 bits x version 0/1 x 0,1,3 samples; tfhd: 7 bits; tfdt, sidx, mvhd, tkhd,
